@@ -28,7 +28,7 @@ X = 6
 def case_strategy(draw, tier="quick"):
     return {"k": draw(st.sampled_from([1, 2, 2, 3])), "fmt": draw(st.sampled_from([1, 2, 5])), "safe": G.chance(draw, 20),
             "hcoll": G.chance(draw, 30), "fill": G.chance(draw, 60), "grow": draw(st.sampled_from([0, 60, 900])),
-            "recvars": draw(st.integers(1, 2)), "parts": sorted(draw(st.sets(st.sampled_from(["coll", "indep", "nb", "bput", "get", "fillrec", "redef", "reopen", "sync", "vard", "varn"]), min_size=3))),
+            "recvars": draw(st.integers(1, 2)), "parts": sorted(draw(st.sets(st.sampled_from(["coll", "indep", "nb", "bput", "get", "fillrec", "redef", "reopen", "sync", "vard", "varn", "mixed", "redef_indep"]), min_size=3))),
             "align": draw(st.sampled_from([0, 4, 512])), "seed": draw(st.integers(0, 1000))}
 
 
@@ -139,6 +139,26 @@ def build(case, upto=None, fault=None):
             n = p.op("data", ranks=[r], what="get_vara(independent)", api="get", form="vara", coll=0, mt="int", f="f0", v=0, start=[0], count=[X], buf=gb(r, X))
             ops.append((n, "get_vara(independent)"))
         A("end_indep", step=True, f="f0")
+    if "mixed" in parts:
+        # one wait_all completing puts and gets together
+        qs = {}
+        for r in range(k):
+            q1, q2 = p.newreq(), p.newreq()
+            gbuf = p.newbuf()
+            p.s.op("buf", ranks=[r], b=gbuf, size=4, fill=0xEE)
+            p.op("data", ranks=[r], what="iput", api="iput", form="vara", coll=0, mt="int", f="f0", v=1, start=[5 * k + r, 0], count=[1, X], buf=ibuf(r, [seed + 21] * X), req=q1)
+            p.op("data", ranks=[r], what="iget", api="iget", form="var1", coll=0, mt="int", f="f0", v=0, start=[r % X], buf=gbuf, req=q2)
+            qs[r] = [q1, q2]
+        percall("wait", "wait_all(iput+iget)", lambda r: dict(f="f0", coll=1, reqs=qs[r], st=1))
+    if "redef_indep" in parts:
+        # redef entered directly from independent data mode: the record count of independent writes is synchronised on the way
+        A("begin_indep", step=True, f="f0")
+        n = p.op("data", ranks=[0], what="put_vara(record, independent)", api="put", form="vara", coll=0, mt="int", f="f0", v=1, start=[7 * k + 1, 0], count=[1, X], buf=ibuf(0, [seed + 23] * X))
+        ops.append((n, "put_vara(record, independent)"))
+        if k > 1:
+            p.op("barrier", expect=None)
+        A("redef", step=True, f="f0", what="redef(from independent mode)")
+        A("enddef", step=True, f="f0", what="enddef(nothing changed)")
     if "fillrec" in parts and case["fill"]:
         A("fill_var_rec", step=True, f="f0", v=1, rec=6 * k)
     if "redef" in parts:
@@ -254,7 +274,7 @@ def run_case(ctx, case):
 
 def campaign(ctx):
     from hypothesis import given, settings, seed, HealthCheck, Phase, Verbosity
-    nprog = {"quick": 9, "thorough": 40}[ctx.tier]
+    nprog = {"quick": 4, "thorough": 40}[ctx.tier]
     classes_all = list(CLASSES)
     state = {"n": 0}
 
